@@ -63,6 +63,7 @@ type Solver struct {
 	dir      string
 	timeoutS int
 	all      bool // thorough: run every solver and require agreement
+	noSplit  bool // retry mode: do not attempt case analysis again
 	cacheDir string
 	prelude  string // signature + struct declarations + axioms
 	lean     string // signature + struct declarations only: candidate-model search for failed obligations
@@ -211,7 +212,7 @@ func (s *Solver) solve(o *Obligation, g *FuncGen) {
 	if decided {
 		return
 	}
-	if o.Hint != "case-split" && s.caseSplit(o, g, query, file) {
+	if o.Hint != "case-split" && !s.noSplit && s.caseSplit(o, g, query, file) {
 		final("unsat", "case-split")
 		return
 	}
@@ -299,22 +300,9 @@ func (s *Solver) caseSplit(o *Obligation, g *FuncGen, query, file string) bool {
 		q := strings.Replace(query, "(check-sat)\n", sb.String()+"(check-sat)\n", 1)
 		cf := fmt.Sprintf("%s.case%d.smt2", file, ci)
 		os.WriteFile(cf, []byte(q), 0o644)
-		ok := false
-		for _, sd := range solvers {
-			rr := runSolver(sd, cf, s.timeoutS)
-			s.mu.Lock()
-			s.timeS += rr.secs
-			s.mu.Unlock()
-			if rr.status == "unsat" {
-				ok = true
-				break
-			}
-			if rr.status == "sat" {
-				break
-			}
-		}
+		st, _ := s.race(cf, nil)
 		os.Remove(cf)
-		if !ok {
+		if st != "unsat" {
 			return false
 		}
 	}
@@ -323,4 +311,40 @@ func (s *Solver) caseSplit(o *Obligation, g *FuncGen, query, file string) bool {
 	}
 	o.Outputs["case-split"] = fmt.Sprintf("unsat in each of %d cases", len(cases))
 	return true
+}
+
+// race runs all solvers concurrently on one file; the first definite answer wins.
+func (s *Solver) race(file string, record func(solverDef, solveResult)) (string, string) {
+	ctx, cancelAll := context.WithCancel(context.Background())
+	defer cancelAll()
+	type sr struct {
+		i int
+		r solveResult
+	}
+	ch := make(chan sr, len(solvers))
+	for i := range solvers {
+		go func(i int) { ch <- sr{i, runSolverCtx(ctx, solvers[i], file, s.timeoutS)} }(i)
+	}
+	status, who := "unknown", "none"
+	decided := false
+	for n := 0; n < len(solvers); n++ {
+		x := <-ch
+		if decided {
+			continue
+		}
+		s.mu.Lock()
+		s.timeS += x.r.secs
+		s.mu.Unlock()
+		if record != nil {
+			record(solvers[x.i], x.r)
+		}
+		if x.r.status == "unsat" || x.r.status == "sat" {
+			decided = true
+			status, who = x.r.status, solvers[x.i].name
+			cancelAll()
+		} else if x.r.status == "timeout" && status == "unknown" {
+			status = "timeout"
+		}
+	}
+	return status, who
 }
